@@ -159,11 +159,18 @@ pub fn judge_step(
         Expect::RejectForm => {
             match out {
                 Out::Err(ErrCat::Nmea(_)) => {}
-                Out::Err(ErrCat::Checksum { .. }) => f.push((
-                    vec!["C08"],
-                    "asm.checksum-error-for-malformed".into(),
-                    "a line without the sentence shape was rejected with a CHECKSUM error".into(),
-                )),
+                // The statements do not fix the error category of a malformed line (an implementation
+                // may verify the checksum before the fields). What C02 does say: a line whose two
+                // values AGREE is never rejected with a checksum error.
+                Out::Err(ErrCat::Checksum { .. }) => {
+                    if crate::spec::line::checksum_relation_holds(line) {
+                        f.push((
+                            vec!["C02"],
+                            "asm.checksum-error-although-values-agree".into(),
+                            "a (malformed) line whose transmitted value equals the XOR was rejected with a CHECKSUM error".into(),
+                        ))
+                    }
+                }
                 _ => {
                     // accepted although no hexadecimal value equal to the XOR follows the first '*'
                     // (no '*' at all, no hex digits, or a different / too large value): also C02
